@@ -44,13 +44,17 @@ def classify_loop(f: Func, loop: ast.While, cfg: CFG) -> Tuple[Optional[str], st
     for v in names:
         def advances(a, v=v):
             if isinstance(a, ast.Assign) and any(isinstance(t, ast.Name) and t.id == v for t in a.targets):
-                t = norm(a.value)
-                return t in (f"{v}._prototype", f"getattr({v}, '_prototype', None)")
+                val = a.value
+                # v = v.<link>  /  v = getattr(v, "<link>", None): one step along a linked structure
+                if isinstance(val, ast.Attribute) and isinstance(val.value, ast.Name) and val.value.id == v:
+                    return True
+                if isinstance(val, ast.Call) and norm(val.func) == "getattr" and len(val.args) >= 2 and isinstance(val.args[0], ast.Name) and val.args[0].id == v:
+                    return True
             return False
 
         p = every_path_passes(advances)
         if p is None:
-            return "prototype-chain-walk", f"every iteration follows {v}._prototype (terminates because chains are acyclic: C01-R8b)"
+            return "link-walk", f"every iteration follows a link of {v} (prototype chains are kept acyclic: C01-R8b)"
     # S-count: an integer variable compared in the test moves monotonically on every path
     for v in names:
         def steps(a, v=v):
